@@ -25,7 +25,7 @@ import (
 type c27Scn struct {
 	RAV      bool `json:"rav"`       // server Config.RequireAddressValidation (Retry)
 	BigHello bool `json:"big_hello"` // client offers many ALPN names: the ClientHello needs two Initial datagrams
-	Chain    int  `json:"chain"`     // certificates in the server's chain (1 = flight fits one datagram, 6 = flight exceeds 3 x 1200 bytes)
+	Chain    int  `json:"chain"`     // certificates in the server's chain (1 = flight fits one datagram, 10 = flight exceeds 3 x 1200 bytes)
 }
 
 type c27Case struct {
@@ -64,6 +64,7 @@ func c27Bubble(r *c27Run, cs c27Case) {
 			protos = append(protos, fmt.Sprintf("c27-%02d-%s", i, strings.Repeat("x", 90)))
 		}
 		cliConf.TLSConfig.NextProtos = protos
+		srvConf.TLSConfig.NextProtos = protos[len(protos)-1:]
 	}
 	if sc.Chain > 1 {
 		cert := srvConf.TLSConfig.Certificates[0]
@@ -227,7 +228,7 @@ func TestVerif_C27(t *testing.T) {
 	vx.Run(t, "C27", func(c *vx.Ctx) {
 		var scns []c27Scn
 		for _, big := range []bool{false, true} {
-			for _, chain := range []int{1, 6} {
+			for _, chain := range []int{1, 10} {
 				for _, rav := range []bool{false, true} {
 					scns = append(scns, c27Scn{RAV: rav, BigHello: big, Chain: chain})
 				}
@@ -235,7 +236,7 @@ func TestVerif_C27(t *testing.T) {
 		}
 		kSmall := vx.Pick(c, 2, 3)
 		kBig := vx.Pick(c, 1, 2)
-		c.Rule(fmt.Sprintf("fault enumeration over the handshake of two real quic Endpoints (real TLS, synctest bubble, harness-owned network): scenarios = RequireAddressValidation {off,on} x ClientHello {one, two Initial datagrams} x server certificate chain {1, 6 certificates: the server flight exceeds 3x1200 bytes}; per scenario the default run plus every placement of <= k deviations at increasing datagram indices 0..N+2 (both directions), kinds {drop, dup, hold1, late (timer first), trunc to 1199/600/100/1 bytes, spoofed source address}; trunc/spoof only take effect on client->server datagrams; k=%d for the one-datagram-ClientHello scenarios (3 deviations: kinds {drop, late, trunc600, trunc100, spoof}), k=%d for the others; every run lasts 12 s of fake time (past the handshake timeout) so that all server PTOs fire. Monitor at the network, per remote address a: after every datagram the server endpoint writes to a, bytes written to a <= 3 x bytes delivered to the server from a, unless a server conn for a has antiAmplificationLimit==unlimited (white-box, read at the quiescent point). Retry packets and datagrams to the spoofed address are counted. Non-trivial = all deviations took effect and the server came within one full datagram (1200 bytes) of the limit or was seen blocked by it", kSmall, kBig))
+		c.Rule(fmt.Sprintf("fault enumeration over the handshake of two real quic Endpoints (real TLS, synctest bubble, harness-owned network): scenarios = RequireAddressValidation {off,on} x ClientHello {one, two Initial datagrams} x server certificate chain {1, 10 certificates: the server flight exceeds 3x1200 bytes}; per scenario the default run plus every placement of <= k deviations at increasing datagram indices 0..N+2 (both directions), kinds {drop, dup, hold1, late (timer first), trunc to 1199/600/100/1 bytes, spoofed source address}; trunc/spoof only take effect on client->server datagrams; k=%d for the one-datagram-ClientHello scenarios (3 deviations: kinds {drop, late, trunc600, trunc100, spoof}), k=%d for the others; every run lasts 12 s of fake time (past the handshake timeout) so that all server PTOs fire. Monitor at the network, per remote address a: after every datagram the server endpoint writes to a, bytes written to a <= 3 x bytes delivered to the server from a, unless a server conn for a has antiAmplificationLimit==unlimited (white-box, read at the quiescent point). Retry packets and datagrams to the spoofed address are counted. Non-trivial = all deviations took effect and the server came within one full datagram (1200 bytes) of the limit or was seen blocked by it", kSmall, kBig))
 		c.Assume("'validated' is the implementation's own notion (a Handshake packet was processed); an address validated by a Retry token alone is still treated as unvalidated, which is stricter than RFC 9000 requires")
 		c.Assume("stateless resets are not enabled (no StatelessResetKey) and version negotiation is not triggered (both endpoints speak version 1)")
 
